@@ -43,10 +43,11 @@ def r08ab(ctx, tom):
 
 
 def _arms(f: FuncInfo):
-    """The innermost `for _i in range(repeated …)` loops of an expanding traversal: one per arm."""
+    """The innermost `for _i in range(<repeat> …)` loops of an expanding traversal that yield: one per arm."""
     out = []
     for n in walk_no_nested(f.node):
-        if isinstance(n, ast.For) and isinstance(n.iter, ast.Call) and call_name(n.iter) == "range" and "repeated" in ast.unparse(n.iter):
+        if isinstance(n, ast.For) and isinstance(n.iter, ast.Call) and call_name(n.iter) == "range" and any(isinstance(x, ast.Yield) for x in ast.walk(n)) \
+                and not any(isinstance(m, ast.For) and m is not n and any(isinstance(x, ast.Yield) for x in ast.walk(m)) for m in ast.walk(n)):
             out.append(n)
     return out
 
@@ -54,54 +55,80 @@ def _arms(f: FuncInfo):
 def r08c(ctx):
     repo = ctx.repo
     ctx.rule("R08c", "expanding traversals: clone, stamp, clear the repeat (run > 1, or range starting inside a run, tested on the stamped x), then advance", floor=4)
-    for q, var in (("Row.traverse", "cell"), ("Table.traverse_columns", "column")):
+    for q in ("Row.traverse", "Table.traverse_columns"):
         f = repo.func(q)
         arms = _arms(f)
         if len(arms) != 2:
             raise AnalysisError(f"R08c: expected two expansion loops in {q}, found {len(arms)}")
         for i, loop in enumerate(arms):
+            # roles, from use: the item is what is yielded; the counter is what is stamped on it; the repeat is what range() counts
+            ys = [x for x in ast.walk(loop) if isinstance(x, ast.Yield) and isinstance(x.value, ast.Name)]
+            if not ys:
+                raise AnalysisError(f"R08c: {q} arm {i + 1} yields no local")
+            var = ys[0].value.id
+            rep = next((x.id for x in ast.walk(loop.iter) if isinstance(x, ast.Name) and x.id != "range"), None)
+            stamp_assigns = [a_ for a_ in ast.walk(loop) if isinstance(a_, ast.Assign) and isinstance(a_.targets[0], ast.Attribute) and a_.targets[0].attr == "x"
+                             and isinstance(a_.targets[0].value, ast.Name) and a_.targets[0].value.id == var and isinstance(a_.value, ast.Name)]
+            xv = stamp_assigns[0].value.id if stamp_assigns else None
             # flatten the statements that handle one yielded item (inside optional `if x <= end:` / `if var is None … else`)
             stmts: list[ast.stmt] = []
 
+            def clears(s_):
+                # the If whose own body (not a nested one) resets the repeat of the item
+                return isinstance(s_, ast.If) and any(isinstance(a_, ast.Assign) and isinstance(a_.targets[0], ast.Attribute) and a_.targets[0].attr == "repeated"
+                                                      and isinstance(a_.targets[0].value, ast.Name) and a_.targets[0].value.id == var
+                                                      and isinstance(a_.value, ast.Constant) and a_.value.value is None for a_ in s_.body)
+
             def flat(body):
-                for s in body:
-                    if isinstance(s, ast.If) and not any(isinstance(x, ast.Yield) for x in ast.walk(s.test)):
-                        t = ast.unparse(s.test)
-                        if "repeated" in t and any(isinstance(a, ast.Assign) and isinstance(a.targets[0], ast.Attribute) and a.targets[0].attr == "repeated"
-                                                   for a in ast.walk(s)):
-                            stmts.append(s)  # the repeat-clearing test
+                for s_ in body:
+                    if isinstance(s_, ast.If) and not any(isinstance(x, ast.Yield) for x in ast.walk(s_.test)):
+                        if clears(s_) and not any(isinstance(x, ast.Yield) for x in ast.walk(s_)):
+                            stmts.append(s_)  # the repeat-clearing test
                         else:
-                            flat(s.body)
-                            flat(s.orelse)
+                            flat(s_.body)
+                            flat(s_.orelse)
                     else:
-                        stmts.append(s)
+                        stmts.append(s_)
 
             flat(loop.body)
             idx = {}
-            for k, s in enumerate(stmts):
-                u = ast.unparse(s)
-                if isinstance(s, ast.Assign) and u.replace(" ", "") == f"{var}={var}.clone":
+            clear_test = None
+            for k, s_ in enumerate(stmts):
+                if isinstance(s_, ast.Assign) and isinstance(s_.targets[0], ast.Name) and s_.targets[0].id == var and isinstance(s_.value, ast.Attribute) \
+                        and s_.value.attr == "clone" and isinstance(s_.value.value, ast.Name) and s_.value.value.id == var:
                     idx.setdefault("clone", k)
-                if isinstance(s, ast.Assign) and isinstance(s.targets[0], ast.Attribute) and s.targets[0].attr == "x" and ast.unparse(s.targets[0].value) == var:
+                if s_ in stamp_assigns:
                     idx.setdefault("stamp", k)
-                if isinstance(s, ast.If) and "repeated" in ast.unparse(s.test) and f"{var}.repeated = None" in u:
+                if isinstance(s_, ast.If) and clears(s_):
                     idx.setdefault("clear", k)
-                    clear_test = s.test
-                if isinstance(s, ast.AugAssign) and isinstance(s.target, ast.Name) and s.target.id == "x":
+                    clear_test = s_.test
+                if isinstance(s_, ast.AugAssign) and isinstance(s_.target, ast.Name) and s_.target.id == xv:
                     idx.setdefault("advance", k)
-                if isinstance(s, ast.Expr) and isinstance(s.value, ast.Yield):
+                if isinstance(s_, ast.Expr) and isinstance(s_.value, ast.Yield):
                     idx.setdefault("yield", k)
-            ranged = "start" in ast.unparse(loop) or "end" in ast.unparse(loop)
+            lnames = {x.id for x in ast.walk(loop) if isinstance(x, ast.Name)}
+            ranged = "start" in lnames or "end" in lnames
             where = f"{f.file}:{f.ident}"
             need = ["clone", "stamp", "clear", "advance", "yield"]
             missing = [k for k in need if k not in idx]
             ok = not missing
             why = f"missing {missing}" if missing else ""
             if ok:
-                reads_x = any(isinstance(x, ast.Name) and x.id == "x" for x in ast.walk(clear_test))
-                t = ast.unparse(clear_test).replace(" ", "")
-                has_run = "repeated>1" in t
-                has_inside = ("x==start" in t and "start>0" in t)
+                reads_x = any(isinstance(x, ast.Name) and x.id == xv for x in ast.walk(clear_test))
+
+                def cmp_is(t, l, op, r):
+                    """t is `l op r` (names or small constants), in either orientation"""
+                    if not (isinstance(t, ast.Compare) and len(t.ops) == 1):
+                        return False
+                    def same(e, w):
+                        return (isinstance(e, ast.Name) and e.id == w) or (isinstance(e, ast.Constant) and e.value == w)
+                    flip = {ast.Gt: ast.Lt, ast.Lt: ast.Gt, ast.GtE: ast.LtE, ast.LtE: ast.GtE, ast.Eq: ast.Eq}
+                    return (isinstance(t.ops[0], op) and same(t.left, l) and same(t.comparators[0], r)) or \
+                        (isinstance(t.ops[0], flip[op]) and same(t.left, r) and same(t.comparators[0], l))
+
+                atoms = [x for x in ast.walk(clear_test) if isinstance(x, ast.Compare)]
+                has_run = any(cmp_is(t, rep, ast.Gt, 1) or cmp_is(t, rep, ast.GtE, 2) for t in atoms)
+                has_inside = any(cmp_is(t, xv, ast.Eq, "start") for t in atoms) and any(cmp_is(t, "start", ast.Gt, 0) or cmp_is(t, "start", ast.GtE, 1) for t in atoms)
                 if not has_run:
                     ok, why = False, "the repeat is not cleared when the run is longer than 1"
                 elif ranged and not has_inside:
@@ -110,42 +137,49 @@ def r08c(ctx):
                     ok, why = False, "x is advanced between the stamp and the test that reads it"
                 elif not (idx["clone"] < idx["clear"] < idx["yield"] and idx["clone"] < idx["stamp"] < idx["yield"]):
                     ok, why = False, "clone / stamp / clear are not all before the yield"
-                elif not idx["advance"] < idx["yield"] and "advance" in idx and idx["advance"] > idx["yield"]:
-                    ok, why = True, ""
             ctx.instance("R08c", where, f"arm {i + 1} ({'range' if ranged else 'full'}): order {sorted(idx, key=idx.get)} {why}", ok=ok, nontrivial=True, line=loop.lineno)
             if not ok:
                 ctx.report("R08c", f, loop, f"{q} arm {i + 1}: {why}",
                            f"expanding traversal {q} ({'range' if ranged else 'full'} arm): {why}; a returned copy can still carry a repeat count")
-        # each expansion step is bounded by the end of the range
-        ranged_loops = [l for l in arms if "end" in ast.unparse(l)]
-        for l in ranged_loops:
-            okb = any(isinstance(n, ast.If) and ast.unparse(n.test).replace(" ", "") == "x<=end" for n in ast.walk(l))
-            ctx.instance("R08c", f"{f.file}:{f.ident}", "range arm yields only while x <= end", ok=okb, line=l.lineno)
-            if not okb:
-                ctx.report("R08c", f, l, f"{q}: no `x <= end` bound", f"{q} range arm is not bounded on the right by `x <= end`")
+            # each expansion step of a ranged arm is bounded by the end of the range
+            if ranged and xv is not None:
+                okb = any(isinstance(n, ast.If) and isinstance(n.test, ast.Compare) and len(n.test.ops) == 1 and (
+                    (isinstance(n.test.ops[0], ast.LtE) and isinstance(n.test.left, ast.Name) and n.test.left.id == xv and isinstance(n.test.comparators[0], ast.Name) and n.test.comparators[0].id == "end")
+                    or (isinstance(n.test.ops[0], ast.GtE) and isinstance(n.test.left, ast.Name) and n.test.left.id == "end" and isinstance(n.test.comparators[0], ast.Name) and n.test.comparators[0].id == xv))
+                    for n in ast.walk(loop))
+                ctx.instance("R08c", f"{f.file}:{f.ident}", "range arm yields only while x <= end", ok=okb, line=loop.lineno)
+                if not okb:
+                    ctx.report("R08c", f, loop, f"{q}: no `x <= end` bound", f"{q} range arm is not bounded on the right by `x <= end`")
 
 
 def r08d(ctx):
     repo = ctx.repo
     ctx.rule("R08d", "reading outside the populated area returns a fresh empty object without touching the table", floor=4)
-    specs = [("Table.get_cell", "y >= self.height", "Cell"), ("Table._get_row2", "y >= self.height", "Row"),
-             ("Row._get_cell2", "x >= self.width", "Cell"), ("Table._get_column2", "x >= self.width", "Column")]
-    for q, test, cls in specs:
+    specs = [("Table.get_cell", "height", "Cell"), ("Table._get_row2", "height", "Row"),
+             ("Row._get_cell2", "width", "Cell"), ("Table._get_column2", "width", "Column")]
+
+    def beyond(t, dim):
+        """`V >= self.<dim>` (or `self.<dim> <= V`) for some local or parameter V"""
+        if not (isinstance(t, ast.Compare) and len(t.ops) == 1):
+            return False
+        l, op, r = t.left, t.ops[0], t.comparators[0]
+        return (isinstance(op, ast.GtE) and isinstance(l, ast.Name) and is_self_attr(r, dim)) or (isinstance(op, ast.LtE) and is_self_attr(l, dim) and isinstance(r, ast.Name))
+
+    for q, dim, cls in specs:
         f = repo.func(q)
         ok = False
         for n in walk_no_nested(f.node):
-            if isinstance(n, ast.If) and ast.unparse(n.test).replace(" ", "") == test.replace(" ", ""):
-                calls = [c for s in n.body for c in ast.walk(s) if isinstance(c, ast.Call)]
+            if isinstance(n, ast.If) and beyond(n.test, dim):
+                calls = [c for s_ in n.body for c in ast.walk(s_) if isinstance(c, ast.Call)]
                 makes = [c for c in calls if call_name(c) == cls and not c.args and not c.keywords]
                 others = [c for c in calls if call_name(c) not in (cls, "ValueError")]
                 ok = bool(makes) and not others
-        ctx.instance("R08d", f"{f.file}:{f.ident}", f"`if {test}:` returns a new empty {cls}() and calls nothing else", ok=ok, nontrivial=True)
+        ctx.instance("R08d", f"{f.file}:{f.ident}", f"beyond self.{dim}: returns a new empty {cls}() and calls nothing else", ok=ok, nontrivial=True)
         if not ok:
             ctx.report("R08d", f, f.node, f"{q}: outside-area arm", f"{q} no longer answers a read beyond the populated area with a fresh empty {cls}()")
     g = repo.func("Table.get_value")
-    ok = any(isinstance(n, ast.If) and ast.unparse(n.test).replace(" ", "") == "y>=self.height" and
-             not any(isinstance(c, ast.Call) for s in n.body for c in ast.walk(s)) for n in walk_no_nested(g.node))
-    ctx.instance("R08d", f"{g.file}:{g.ident}", "`if y >= self.height:` returns None without any call", ok=ok)
+    ok = any(isinstance(n, ast.If) and beyond(n.test, "height") and not any(isinstance(c, ast.Call) for s_ in n.body for c in ast.walk(s_)) for n in walk_no_nested(g.node))
+    ctx.instance("R08d", f"{g.file}:{g.ident}", "beyond self.height: returns None without any call", ok=ok)
     if not ok:
         ctx.report("R08d", g, g.node, "Table.get_value outside-area arm", "Table.get_value outside the table no longer returns None without side effect")
 
